@@ -49,7 +49,7 @@ const sigMonthSlotWraps = "C13/month-slot-wraps-on-local-day-longer-than-24h"
 // /verif/known_findings.json (the builder may not edit that file). excluded(sig) is true while
 // the finding is listed OR pending here; delete the entry here when the finding is listed (then
 // ev.Known decides) or repaired in /repo (then the shape is generated and judged again).
-var pendingFindings = map[string]bool{sigNonHourShift: true, sigMonthSlotWraps: true}
+var pendingFindings = map[string]bool{} // both findings of this file were repaired in /repo (a92b615, 351f321): the shapes are generated and judged
 
 func excluded(sig string) bool { return ev.Known(sig) || pendingFindings[sig] }
 
